@@ -413,7 +413,7 @@ def u_iso_map(ctx, which):
 
 
 for _w in ("G1", "G2"):
-    UNITS[f"swu.iso_map_{_w}"] = Unit(f"swu.iso_map_{_w}", u_iso_map, [f"{SWU}.iso_map_{_w}"], props=("C10",), args=(_w,))
+    UNITS[f"swu.iso_map_{_w}"] = Unit(f"swu.iso_map_{_w}", u_iso_map, [f"{SWU}.iso_map_{_w}"], props=("C10",), args=(_w,), budget_s=900)
 
 
 # ------------------------------------------------------------------------------------------
